@@ -250,6 +250,34 @@ def audit(props_file):
                 assumptions=assumptions, files=files, theorems=n_thm)
 
 
+def coqchk(props_file, timeout=3000):
+    """Independent re-check (coqchk -o) of the compiled Props file and everything it depends on.
+    -> dict(ok, problems, axioms): every axiom in the context summary must live in the Coq.* standard library (the
+    primitive-integer/float operations and their specification axioms, and stdlib axioms named in DESIGN.md section 5)."""
+    mod = 'Fsic.' + os.path.splitext(props_file)[0].replace('/', '.')
+    try:
+        p = subprocess.run(['coqchk', '-silent', '-o', '-R', '.', 'Fsic', mod], cwd=COQ, capture_output=True, text=True, timeout=timeout)
+    except subprocess.TimeoutExpired:
+        return dict(ok=False, problems=['coqchk timeout'], axioms=[])
+    out = p.stdout + p.stderr
+    problems = []
+    if p.returncode != 0:
+        problems.append('coqchk failed: ' + out[-400:])
+    m = re.search(r'\* Axioms:(.*?)\n\s*\n\* Constants/Inductives relying on type-in-type:(.*?)\n\s*\n\* Constants/Inductives relying on unsafe \(co\)fixpoints:(.*?)\n\s*\n\* Inductives whose positivity is assumed:(.*?)\n', out + '\n', re.S)
+    axioms = []
+    if not m:
+        problems.append('coqchk: context summary not found')
+    else:
+        axioms = [a.strip() for a in m.group(1).split() if a.strip() and a.strip() != '<none>']
+        for a in axioms:
+            if not a.startswith('Coq.'):
+                problems.append('coqchk: axiom outside the standard library: ' + a)
+        for name, grp in (('type-in-type', 2), ('unsafe fixpoints', 3), ('assumed positivity', 4)):
+            if m.group(grp).strip() != '<none>':
+                problems.append('coqchk: %s: %s' % (name, m.group(grp).strip()[:200]))
+    return dict(ok=not problems, problems=problems, axioms=sorted(axioms))
+
+
 # --------------------------------------------------------------------------- running Coq on generated cases
 def run_coq_cases(tag, preamble, items, expr_of_list, shard=400, timeout=900):
     """items: list of Coq terms (one per case).  Each shard file defines `cs := [items]` and evaluates
